@@ -50,7 +50,7 @@ Qed.
 Lemma newline_shape s t rest : spec_step s = Some (t, rest) -> s_kind t = SNewline -> s_raw t = [10] \/ s_raw t = [13; 10].
 Proof.
   intros H K. pose proof (spec_step_shape _ _ _ H) as Sh. destruct Sh; try discriminate K; auto.
-  - unfold spec_number in H1. destruct (num_run _ _ _) as [run rs]. destruct (spec_numeral run) as [[n d]|]; [|discriminate].
+  - unfold spec_number in H1. destruct (num_split _) as [run rs]. destruct (spec_numeral run) as [[n d]|]; [|discriminate].
     injection H1 as <- _. discriminate K.
   - destruct (mem_bytes a spec_keywords); discriminate K.
   - destruct (spec_symbol_inv _ _ _ H0) as (x & _ & -> & _). discriminate K.
